@@ -139,5 +139,13 @@ impl SourceMap {
 pub broadcast axiom fn axiom_map_json_is_utf8(m: SourceMap)
     ensures #[trigger] utf8(m.json()) is Some;
 
-// SourceMap::from_reader over the text (util.rs parse_source_map is a pinned leaf with this contract)
-pub uninterp spec fn parse_map(s: Seq<char>) -> Option<Seq<TokenView>>;
+// SourceMap::from_reader over bytes: the token table of the decoded map, or None when the bytes are not a source map
+// (ASSUMED: sourcemap crate).  parse_map is that function over the UTF-8 bytes of a text (vstd: str::as_bytes).
+pub uninterp spec fn parse_map_bytes(b: Seq<u8>) -> Option<Seq<TokenView>>;
+pub open spec fn parse_map(s: Seq<char>) -> Option<Seq<TokenView>> { parse_map_bytes(vstd::utf8::encode_utf8(s)) }
+impl SourceMap {
+    #[verifier::external_body]
+    pub fn from_reader(rdr: &[u8]) -> (r: Result<SourceMap, SourceMapError>)
+        ensures match r { Ok(m) => parse_map_bytes(rdr@) == Some(m.tokens()), Err(_) => parse_map_bytes(rdr@) is None },
+    { unimplemented!() }
+}
